@@ -511,6 +511,15 @@ pub fn corpus() -> Vec<Vec<u8>> {
     let mut g = build(&full);
     g.extend([0xC0, 0x0C, 0xFF]);
     v.push(g);
+    // the common empty TXT (one zero-length string) and a TXT with a zero-length string in the
+    // middle, each followed by records in later sections
+    let mut m = response(vec![ptr(&ty, &inst, 4500), txt(&inst, &[0], 4500)]);
+    m.additionals = vec![srv(&inst, &host, 80, 120), a(&host, [10, 0, 0, 9], 120)];
+    v.push(build(&m));
+    let mut m = response(vec![txt(&inst, &[3, b'a', b'=', b'1', 0, 3, b'b', b'=', b'2'], 4500)]);
+    m.authorities = vec![a(&host, [10, 0, 0, 9], 120)];
+    m.additionals = vec![a(&host, [10, 0, 0, 10], 120)];
+    v.push(build(&m));
     v
 }
 
@@ -665,8 +674,9 @@ fn run_receive_path(pk: usize, trace: bool) -> CaseResult {
 
 pub fn check(tier: &str) -> i32 {
     let mut rep = Report::new("C01", tier, "exploration");
+    rep.case_limit = Duration::from_secs(30);
     let thorough = rep.thorough();
-    rep.assume("decoder loops are the three instrumented ones (read_name, read_questions, read_rr_records); all other work per entry is bounded by the entry's length");
+    rep.assume("the fuel counter sees the three instrumented decoder loops (read_name, read_questions, read_rr_records); a loop elsewhere that never ends is caught by the real-time watchdog (30 s per case) instead");
     rep.assume("the independent parser (harness/src/indep.rs) is a correct RFC 1035 reader");
 
     // E1
